@@ -65,6 +65,7 @@ type Solver struct {
 	LastErr   string
 	Log       io.Writer // optional transcript
 	depth     int
+	OnSlow    func(dt float64, res SatResult)
 }
 
 func NewSolver(kind string, timeoutMS int) (*Solver, error) {
@@ -277,6 +278,9 @@ func (s *Solver) checkSat() SatResult {
 	s.Stats.Seconds += dt
 	if dt > s.Stats.MaxQuery {
 		s.Stats.MaxQuery = dt
+	}
+	if dt > 3 && s.OnSlow != nil {
+		s.OnSlow(dt, res)
 	}
 	switch res {
 	case Sat:
